@@ -254,9 +254,9 @@ func raceRun(w *out.W, tier string) {
 		i := strings.Index(txt, "WARNING: DATA RACE")
 		w.Violation("race", "data-race", "race detector: "+trunc(strings.Join(strings.Fields(txt[i:]), " "), 900))
 	case strings.Contains(txt, "MISMATCH"):
-		w.Violation("race", "nondeterministic-concurrent", "outputs differ under the -race build: "+trunc(txt, 300))
+		w.Violation("race", "nondeterministic-concurrent", "outputs differ under the -race build: "+trunc(strings.Join(strings.Fields(txt), " "), 300))
 	case err != nil:
-		w.Violation("race", "race-run-failed", "the -race binary failed: "+err.Error()+": "+trunc(txt, 300))
+		w.Violation("race", "race-run-failed", "the -race binary failed: "+err.Error()+": "+trunc(strings.Join(strings.Fields(txt), " "), 300))
 	}
 	w.ImplOnly("race", fmt.Sprintf("go build -race %.0fs; concurrent schedule under the race detector: %s", buildS, trunc(strings.TrimSpace(txt), 80)))
 	w.Set("race", fmt.Sprintf("built in %.0fs, ran in %.0fs", buildS, time.Since(t0).Seconds()-buildS))
